@@ -4,7 +4,7 @@ import json, os
 import re
 from ..core import *
 from ..inline import inlined_body
-from .. import census
+from .. import census, core
 
 EXPLANATION = ("Census over everything reachable (over-approximate call graph incl. trait objects and callbacks through std/byteorder/bincode/brotli) from the "
                "untrusted-input entry points: (PANIC) every MIR Assert (overflow, division, bounds) and every call of a panicking API (index, "
@@ -581,7 +581,7 @@ def clippy_superset(rep, verif, repo, rule, packages):
     packages must coincide (file:line) with a site of the MIR census; guards the extractor against silently skipping a construct."""
     import subprocess, time
     t0 = time.time()
-    prog = Program(os.path.join(verif, '.cache', 'facts', 'default'))
+    prog = getattr(core, 'DEFAULT_PROG', None) or Program(os.path.join(verif, '.cache', 'facts', 'default'))
     pkg_of = {'mla': 'mla', 'curve25519-parser': 'curve25519-parser', 'mlar': 'mlar', 'mla-bindings-c': 'mla-bindings-c'}
     lines = set()
     for pkg in packages:
